@@ -477,6 +477,10 @@ class StmtMixin:
             self.yielded = ZV(L.fresh("yielded"), "seq")
         if spec.get("havoc_effects", self._loop_has_effects):
             st.effects = L.fresh("eff")
+        # the allocation clock only moves forward
+        c_ = L.fresh("clock", L.I)
+        st.assume(c_ >= st.clock)
+        st.clock = c_
 
     def fresh_like(self, old, name):
         if isinstance(old, ZB) or (isinstance(old, PyC) and isinstance(old.value, bool)):
